@@ -331,6 +331,22 @@ func ToStr(src interface{}) string {
 	case bool:
 		return strconv.FormatBool(value)
 	default:
+		// 自定义类型(如: type Status int32, 可能实现了 String 方法)按其底层类型处理
+		rv := reflect.ValueOf(src)
+		switch rv.Kind() {
+		case reflect.String:
+			return rv.String()
+		case reflect.Int, reflect.Int8, reflect.Int16, reflect.Int32, reflect.Int64:
+			return strconv.FormatInt(rv.Int(), 10)
+		case reflect.Uint, reflect.Uint8, reflect.Uint16, reflect.Uint32, reflect.Uint64, reflect.Uintptr:
+			return strconv.FormatUint(rv.Uint(), 10)
+		case reflect.Float32:
+			return strconv.FormatFloat(rv.Float(), 'f', -1, 32)
+		case reflect.Float64:
+			return strconv.FormatFloat(rv.Float(), 'f', -1, 64)
+		case reflect.Bool:
+			return strconv.FormatBool(rv.Bool())
+		}
 		return fmt.Sprintf("%v", value)
 	}
 }
